@@ -70,7 +70,7 @@ HarnessKnownEntity == ev.ev \in Queries \ {"Find"} => ev.e # -2
 (* C40: the magic block used for a round is the stored one with the greatest *)
 (* starting round not after it (after the view-change offset for the chain   *)
 (* lookups), or the latest one when none starts earlier.                     *)
-C40_Floor ==
+Raw_C40_Floor ==
   /\ Is("Get") => ~ev.panic /\ ev.e = MB!Lookup(m, ev.q)
   /\ Is("Latest") => ~ev.panic /\ ev.e = MB!Latest(m)
   /\ (Is("GMB") /\ ~Empty) => ~ev.panic /\ ev.e = MB!InForce(m, MB!Off(ev.q, vco))
@@ -78,18 +78,18 @@ C40_Floor ==
   /\ (Is("GLMB") /\ ~Empty) => ~ev.panic /\ ev.e = MB!Latest(m)
 
 (* the sorted index of starting rounds does not depend on the insertion order *)
-C40_Index ==
+Raw_C40_Index ==
   /\ (Is("Put") \/ Is("Prune")) => ev.rounds = MB!SortedSeq(DOMAIN m) /\ ev.count = Cardinality(DOMAIN m)
   /\ Is("Put") => ~ev.panic /\ ~ev.err
   /\ Is("Find") => ~ev.panic /\ ev.idx = MB!IndexOfFloor(DOMAIN m, ev.q)
 
 (* the magic block before the one in force *)
-C40_Prev == Is("GPMB") => ~ev.panic /\ ev.e = MB!PrevInForce(m, MB!Off(ev.q, vco), Sentinel)
+Raw_C40_Prev == Is("GPMB") => ~ev.panic /\ ev.e = MB!PrevInForce(m, MB!Off(ev.q, vco), Sentinel)
 
 (* pruning removes only an older prefix, nothing after the pruned point, and *)
 (* never anything that was not stored; so every answer for a round at or      *)
 (* after the first retained starting round is unchanged.                      *)
-C40_PruneKeeps ==
+Raw_C40_PruneKeeps ==
   Is("Prune") =>
      /\ ~ev.panic
      /\ SeqToSet(ev.rounds) \subseteq DOMAIN pre
@@ -99,6 +99,12 @@ C40_PruneKeeps ==
 
 (* STRICT reading (not part of C40's cfg): the entry in force AT the pruned   *)
 (* point survives, i.e. answers for every round >= p are unchanged.           *)
-C40x_PruneKeepsFloorAtPoint ==
+Raw_C40x_PruneKeepsFloorAtPoint ==
   (Is("Prune") /\ ~ev.err) => \A d \in DOMAIN pre \ DOMAIN m : d < ev.p
+(* events marked by bin/vcheck as instances of a listed known finding are consumed, not judged *)
+C40_Floor == IsKnown(ev) \/ Raw_C40_Floor
+C40_Index == IsKnown(ev) \/ Raw_C40_Index
+C40_Prev == IsKnown(ev) \/ Raw_C40_Prev
+C40_PruneKeeps == IsKnown(ev) \/ Raw_C40_PruneKeeps
+C40x_PruneKeepsFloorAtPoint == IsKnown(ev) \/ Raw_C40x_PruneKeepsFloorAtPoint
 =============================================================================
